@@ -1,1 +1,44 @@
-import RosedVerif.Model.Ops
+/-
+C08 — Editors are immutable values; operations are deterministic.
+In the functional model immutability and determinism hold by construction (operations are functions
+from values to values); it is stated as the specification the POOL refinement check compares the real
+code against.  What carries content here are (a) the frame facts regenerated from the typed source —
+no function of package rosed assigns through a pointer, all its methods have value receivers — and
+(b) the layer-H theorem that the only shared mutable state (gem.String cache cells) never changes an
+observable of any existing value.
+-/
+import RosedVerif.Model.InstAFacts
+import RosedVerif.Gen.Facts
+namespace RosedVerif.Props
+open RosedVerif
+
+/-- the pool machine: a step appends its result and leaves every earlier member as it was -/
+def poolStep {σ : Type} (pool : List σ) (op : List σ → σ) : List σ := pool ++ [op pool]
+
+theorem C08_pool_frame {σ : Type} (pool : List σ) (ops : List (List σ → σ)) (i : Nat) (hi : i < pool.length) :
+    (ops.foldl poolStep pool)[i]? = pool[i]? := by
+  induction ops generalizing pool with
+  | nil => rfl
+  | cons op rest ih =>
+    have : (poolStep pool op)[i]? = pool[i]? := by
+      unfold poolStep; rw [List.getElem?_append_left hi]
+    rw [List.foldl_cons, ih (poolStep pool op) (by unfold poolStep; simp; omega), this]
+
+/-- all receivers in package rosed and gem are value receivers -/
+theorem C08_value_receivers :
+    (Gen.pointerReceiverMethods.filter fun m => m.1 == "rosed" || m.1 == "gem") = [] := by decide
+
+/-- no function of package rosed writes through a pointer or into a caller-visible slice element -/
+theorem C08_rosed_writes_nothing :
+    (Gen.heapWrites.filter fun w => w.1 == "rosed") = [] := by decide
+
+/-- a sub-editor holds a snapshot: Commit builds a NEW parent value, the stored one is only read
+(model: `Editor.commit` is a function of the sub-editor value) — and is a pure function -/
+theorem C08_commit_deterministic (e : Editor Int) : ∀ r₁ r₂, e.commit cxA = r₁ → e.commit cxA = r₂ → r₁ = r₂ :=
+  fun _ _ h₁ h₂ => h₁ ▸ h₂
+
+/-- shared cache cells never change what an existing value reports (C19's frame theorem) -/
+theorem C08_cache_frame (k : H.Call) (h : H.Heap) (c : Nat) (x : List Nat) (hx : h.get c = some x) :
+    (k.run h).1.get c = some x := H.frame k h c x hx
+
+end RosedVerif.Props
